@@ -2,10 +2,10 @@ package main
 
 import (
 	"fmt"
-	"go/token"
-	"sort"
 	"go/constant"
+	"go/token"
 	"go/types"
+	"sort"
 	"strings"
 
 	"golang.org/x/tools/go/ssa"
@@ -630,6 +630,15 @@ func (w *World) ptrOrigins(v ssa.Value, depth int, seen map[ssa.Value]bool, out 
 				f := fieldOf(a)
 				out["field:"+fieldOwnerName(w, f)+"."+f.Name()] = true
 				return
+			case *ssa.Alloc:
+				// a local variable (named result, loop-carried found-entry): what is stored in it
+				ss := w.stores[w.locKey(a)]
+				if len(ss) > 0 && !w.escapes(a) {
+					for _, st := range ss {
+						w.ptrOrigins(st.Val, depth-1, seen, out)
+					}
+					return
+				}
 			}
 		}
 	case *ssa.Slice:
